@@ -16,8 +16,8 @@ import re
 
 from vlib import read_jsonl, zlit, canon_hash
 
-O_ARRIVE, O_REPLY, O_FIRE, O_CANCEL, O_STOP, O_CIF, O_RESET, O_RESTART, O_DISPATCH, O_FINISH, O_CTL, O_REQUEST, O_THEN = range(13)
-OPNAMES = ["Arrive", "Reply", "TimerFire", "Cancel", "Stop", "CancelInFlight", "Reset", "Restart", "Dispatch", "Finish", "Ctl", "Request", "Then"]
+O_ARRIVE, O_REPLY, O_FIRE, O_CANCEL, O_STOP, O_CIF, O_RESET, O_RESTART, O_DISPATCH, O_FINISH, O_CTL, O_REQUEST, O_THEN, O_RETUNE = range(14)
+OPNAMES = ["Arrive", "Reply", "TimerFire", "Cancel", "Stop", "CancelInFlight", "Reset", "Restart", "Dispatch", "Finish", "Ctl", "Request", "Then", "Retune"]
 
 KNOWN_ORDER = "stash-order:held-messages-reordered-across-rounds"
 KNOWN_TAINT = "counters:cancelInFlightRequests-inside-completeRequest"
@@ -53,6 +53,12 @@ CORPUS = [
       [O_CIF, 0, 0], [O_FIRE, 0, 0], [O_CANCEL, 1, 0], D, F, [O_THEN, 1, 0], [O_THEN, 0, 0], [O_RESET, 0, 0], [O_RESTART, 0, 0], [O_REQUEST, 1, 0], [O_ARRIVE, 0, 0], D, D]),
     ("shutdown cancellation loses against an on-turn completion (emulated preemption), then reset", 0,
      [[O_REQUEST, 0, 1], [O_THEN, 0, 0], [O_REQUEST, 1, 0], [O_REPLY, 0, 1], D, [O_STOP, 0, 0], [O_CIF, 0, 0], [O_RESET, 0, 0], F, [O_RESTART, 0, 0], [O_REQUEST, 0, 0]]),
+    ("blocking request, two held messages, reply whose continuation panics: bookkeeping released, held messages handled in order", 1,
+     [[O_REQUEST, 1, 0], [O_THEN, 0, 1], [O_ARRIVE, 0, 0], [O_ARRIVE, 1, 0], D, D, [O_REPLY, 0, 1], D, F, [O_REQUEST, 1, 1], [O_THEN, 1, 1], D, [O_FIRE, 1, 0], D, F, D, D,
+      [O_REQUEST, 0, 0], [O_REPLY, 2, 2], D, F, [O_THEN, 2, 1], [O_THEN, 2, 1]]),
+    ("default mode switched Off (DisableReentrancy) while a blocking request is outstanding: ordinary messages stay held", 0,
+     [[O_REQUEST, 1, 0], [O_THEN, 0, 0], [O_RETUNE, 0, 0], [O_ARRIVE, 0, 0], [O_ARRIVE, 1, 0], D, D, [O_CTL, 0, 0], [O_REQUEST, 1, 0], [O_RETUNE, 2, 0], [O_REPLY, 0, 1], D, F,
+      [O_RETUNE, 0, 0], [O_ARRIVE, 0, 0], D, [O_REPLY, 1, 1], D, F, D, D, D, [O_RETUNE, 1, 0], [O_REQUEST, 0, 0]]),
     ("restartSubtree: cancelInFlightRequests while running, stranded held messages", 0,
      [[O_REQUEST, 1, 0], [O_THEN, 0, 0], [O_ARRIVE, 0, 0], [O_ARRIVE, 0, 0], D, D, [O_CIF, 0, 0], [O_ARRIVE, 0, 0], D, [O_REQUEST, 1, 0], [O_REPLY, 1, 1], D, F, D, D]),
 ]
@@ -80,10 +86,10 @@ def gen_case(rng, profile):
     while len(ops) < n:
         x = rng.random()
         w = {
-            "steady": [(0.16, "arrive"), (0.17, "request"), (0.12, "then"), (0.13, "reply"), (0.26, "dispatch"), (0.03, "cancel"), (0.03, "fire"), (0.03, "ctl"), (0.05, "split"), (0.02, "life")],
-            "races": [(0.08, "arrive"), (0.16, "request"), (0.10, "then"), (0.12, "reply"), (0.14, "dispatch"), (0.10, "cancel"), (0.10, "fire"), (0.02, "ctl"), (0.14, "split"), (0.04, "life")],
-            "shutdown": [(0.10, "arrive"), (0.16, "request"), (0.10, "then"), (0.10, "reply"), (0.16, "dispatch"), (0.04, "cancel"), (0.04, "fire"), (0.02, "ctl"), (0.10, "split"), (0.18, "life")],
-            "limit": [(0.06, "arrive"), (0.34, "request"), (0.08, "then"), (0.16, "reply"), (0.22, "dispatch"), (0.04, "cancel"), (0.03, "fire"), (0.01, "ctl"), (0.04, "split"), (0.02, "life")],
+            "steady": [(0.16, "arrive"), (0.17, "request"), (0.12, "then"), (0.13, "reply"), (0.26, "dispatch"), (0.03, "cancel"), (0.03, "fire"), (0.05, "ctl"), (0.05, "split"), (0.02, "life")],
+            "races": [(0.08, "arrive"), (0.16, "request"), (0.10, "then"), (0.12, "reply"), (0.14, "dispatch"), (0.10, "cancel"), (0.10, "fire"), (0.04, "ctl"), (0.14, "split"), (0.04, "life")],
+            "shutdown": [(0.10, "arrive"), (0.16, "request"), (0.10, "then"), (0.10, "reply"), (0.16, "dispatch"), (0.04, "cancel"), (0.04, "fire"), (0.04, "ctl"), (0.10, "split"), (0.18, "life")],
+            "limit": [(0.06, "arrive"), (0.34, "request"), (0.08, "then"), (0.16, "reply"), (0.22, "dispatch"), (0.04, "cancel"), (0.03, "fire"), (0.03, "ctl"), (0.04, "split"), (0.02, "life")],
         }[profile]
         acc, kind = 0.0, w[-1][1]
         for p, k in w:
@@ -99,9 +105,9 @@ def gen_case(rng, profile):
             if not g.mid and g.phase == 0:
                 g.live.add(g.nreq); g.nreq += 1
                 if rng.random() < 0.6:
-                    ops.append([O_THEN, g.nreq - 1, 0])
+                    ops.append([O_THEN, g.nreq - 1, 1 if rng.random() < 0.2 else 0])   # 1: the continuation panics
         elif kind == "then":
-            ops.append([O_THEN, anyreq(False), 0])
+            ops.append([O_THEN, anyreq(False), 1 if rng.random() < 0.2 else 0])
         elif kind == "reply":
             ops.append([O_REPLY, anyreq(), rng.choice([1, 1, 1, 2, 3, 4])]); g.mbox += 1
         elif kind == "cancel":
@@ -109,7 +115,7 @@ def gen_case(rng, profile):
         elif kind == "fire":
             ops.append([O_FIRE, anyreq(), 0]); g.mbox += 1
         elif kind == "ctl":
-            ops.append([O_CTL, 0, 0])
+            ops.append([O_CTL, 0, 0] if rng.random() < 0.5 else [O_RETUNE, rng.choice([0, 0, 1, 2]), 0])
         elif kind == "dispatch":
             k = rng.randint(1, 3)
             for _ in range(k):
@@ -172,6 +178,7 @@ def op_coq(o):
     if c == O_CTL: return "OCtl"
     if c == O_REQUEST: return "ORequest %s %s" % ("true" if a == 1 else "false", "true" if b == 1 else "false")
     if c == O_THEN: return "OThen %d" % a
+    if c == O_RETUNE: return "ORetune"
     raise ValueError(o)
 
 
@@ -214,7 +221,7 @@ def run(ctx):
     with open(os.path.join(ctx.work, "c16_ops.jsonl"), "w") as f:
         for c in cases:
             f.write(json.dumps(c) + "\n")
-    for fn in ("c16_ops_out.jsonl", "c16_stress_out.jsonl", "c16_race_out.jsonl", "c16_witness_order.jsonl", "c16_grain_out.jsonl"):
+    for fn in ("c16_ops_out.jsonl", "c16_stress_out.jsonl", "c16_race_out.jsonl", "c16_witness_order.jsonl", "c16_grain_out.jsonl", "c16_grain_panic_out.jsonl"):
         p = os.path.join(ctx.work, fn)
         if os.path.exists(p):
             os.remove(p)
@@ -226,8 +233,9 @@ def run(ctx):
     race = read_jsonl(os.path.join(ctx.work, "c16_race_out.jsonl"))
     wit = read_jsonl(os.path.join(ctx.work, "c16_witness_order.jsonl"))
     grain = read_jsonl(os.path.join(ctx.work, "c16_grain_out.jsonl"))
+    gpanic = read_jsonl(os.path.join(ctx.work, "c16_grain_panic_out.jsonl"))
     ctx.log("harness done rc=%d" % rc)
-    harness_ok = rc == 0 and len(outs) == len(cases) and stress and race and wit and grain
+    harness_ok = rc == 0 and len(outs) == len(cases) and stress and race and wit and grain and gpanic
     if not harness_ok:
         ctx.tie_broken("go-harness actor TestVerifC16*", out[-4000:])
     if len(outs) != len(cases):
@@ -358,6 +366,11 @@ Eval vm_compute in (nth %d (trace %s (init %s) [%s]) (observe (init 0))).
         for m in (s.get("Violations") or [])[:2]:
             ctx.violation("grain:" + re.sub(r"[^a-z]+", "-", m.split(":", 1)[-1].lower())[:48].strip("-"),
                           "C16 grain variant under real goroutines: " + m, {"driver": "TestVerifC16Grain", "seed": ctx.seed, "stats": {k: v for k, v in s.items() if k != "Violations"}})
+    for s in gpanic:
+        for m in (s.get("Violations") or [])[:2]:
+            ctx.violation("grain-panic:" + re.sub(r"[^a-z]+", "-", m.lower())[:48].strip("-"),
+                          "C16 grain, blocking request whose continuation panics on the turn (two messages held behind it): " + m,
+                          {"driver": "TestVerifC16GrainPanic", "observed": {k: v for k, v in s.items() if k != "Violations"}})
     for r in race:
         for m in (r.get("Violations") or [])[:1]:
             ctx.violation("register-race:limit", "concurrent registerRequestState: " + m, {"driver": "TestVerifC16RegisterRace", "detail": r})
@@ -396,7 +409,9 @@ Eval vm_compute in (nth %d (trace %s (init %s) [%s]) (observe (init 0))).
         "op_histogram": hist, "model_mismatching_cases": len(mismatches) if verdicts else None,
         "model_tainted_cases": sum(1 for v in (verdicts or []) if v[1] >= 0), "model_overtaken_cases": sum(1 for v in (verdicts or []) if v[2] == 1),
         "oracle_complaint_kinds": kinds, "known_finding_hits": known_seen, "cancel_in_flight_policy": policy,
-        "stress_totals": st_tot, "grain_totals": [{k: v for k, v in g_.items() if k != "Violations"} for g_ in grain], "register_race": [{k: v for k, v in r.items() if k != "Violations"} for r in race],
+        "stress_totals": st_tot, "grain_totals": [{k: v for k, v in g_.items() if k != "Violations"} for g_ in grain],
+        "grain_panic_scenario": [{k: v for k, v in g_.items() if k != "Violations"} for g_ in gpanic],
+        "panicking_continuations_in_op_sequences": sum(o.get("Panics", 0) for o in outs), "register_race": [{k: v for k, v in r.items() if k != "Violations"} for r in race],
         "samples": [{"ops": pretty_ops(cases[i]["Ops"])[:14], "max": cases[i]["Max"]} for i in (0, 1, n_corpus, min(len(cases) - 1, n_corpus + 1))],
         "theorems": THEOREMS,
     })
